@@ -40,6 +40,8 @@ def base_wcs(rng):
     sky = cf.CelestialFrame(reference_frame=coord.ICRS(), name="world")
     w = wcs.WCS([(det, dist), (mid, sky_tr), (sky, None)])
     w.bounding_box = ((-0.5, 999.5), (-0.5, 799.5))
+    if rng.random() < 0.5:
+        w.pixel_shape = (800, 600)        # an image smaller than the region of validity
     return w
 
 
